@@ -695,10 +695,12 @@ class Runner:
             kv = self.operand()
         split_src = getattr(self, '_split_src', None)
         self._split_src = None
+        self.do_concat(a, kv, rng.random() < 0.4 and split_src is None, split_src, rng.random() < 0.6)
+
+    def do_concat(self, a, kv, inplace, split_src, keep):
         b_astr = self.as_astr(kv)
         ids = P.InIds()
         inp = self._inp = P.line('iadd', P.e_astr(a, ids), P.e_astr(b_astr, ids))
-        inplace = rng.random() < 0.4 and split_src is None
         pre_a, pre_b = O.Snap(a), O.Snap(b_astr)
         if inplace:
             def run():
@@ -740,7 +742,7 @@ class Runner:
                 if '\x1b' not in src._s and all(T.is_group(t) for ac in O.acts(src) for t in O.texts(ac)):
                     if T.run(str(r), {})[0] != T.run(str(src), {})[0]:
                         viol.append(('C05', 'split_concat_display', 'k=%d %r vs %r' % (k, str(r), str(src))))
-            if not inplace and rng.random() < 0.6:
+            if not inplace and keep:
                 self.add_live(r)
         self.emit('iadd', inp, self.outcome_line(out, P.ok_astr), '%r %s %s:%r' % (pre_a.text, '+=' if inplace else '+', kv[0], pre_b.text), viol)
 
@@ -1623,6 +1625,13 @@ def exhaustive(runner, family, nbases=120):
                 for b in bounds:
                     sel = rng.choice([('obj', '31'), ('obj', '34'), ('obj', '1'), ('list', [('obj', '31'), ('obj', '1')])])
                     runner.guard('find', lambda: runner.do_find(x, sel, a, b, rng.random() < 0.4))
+        elif family == 'concat':
+            for y in bases[:45]:
+                runner.live = [x, y]
+                runner.guard('concat', lambda: runner.do_concat(x, ('A', y), False, None, False))
+            for k in range(0, 5):
+                runner.live = [x]
+                runner.guard('concat', lambda: runner.do_concat(x[:k], ('A', x[k:]), False, (x, k), False))
         elif family == 'pad':
             for kind in ('ljust', 'rjust', 'center'):
                 for w in range(0, 10):
